@@ -40,9 +40,11 @@ import (
 )
 
 type pkgSyms struct {
-	Funcs map[string]string   // "F" / "T.M" → signature
-	Types map[string][]string // named type → struct: "field\x00type"… ; otherwise: "=underlying"
-	Vars  map[string]string   // package-level variables and constants → "var T" / "const T"
+	Funcs  map[string]string   // "F" / "T.M" → signature
+	Types  map[string][]string // named type → struct: "field\x00type"… ; otherwise: "=underlying"
+	Vars   map[string]string   // package-level variables and constants → "var T" / "const T = value"
+	Locals map[string][]string // generated parser only: "F" → its parameters and locals, "name\x00type"
+	Bodies map[string]string   // "F" / "T.M" → what the body mentions (bodyPrints)
 }
 
 func qualifierFor(p *types.Package) types.Qualifier {
@@ -81,7 +83,8 @@ func symsOf(p *types.Package) *pkgSyms {
 		case *types.Var:
 			s.Vars[name] = "var " + types.TypeString(o.Type(), q)
 		case *types.Const:
-			s.Vars[name] = "const " + types.TypeString(o.Type(), q)
+			// the value is part of a constant's identity: two gone constants of one type are told apart by it
+			s.Vars[name] = "const " + types.TypeString(o.Type(), q) + " = " + o.Val().ExactString()
 		case *types.TypeName:
 			if o.IsAlias() {
 				s.Types[name] = []string{"=alias " + types.TypeString(o.Type(), q)}
@@ -156,6 +159,12 @@ func dumpSyms(c *Ctx) {
 			fmt.Printf("\t\t\t%q: %q,\n", k, s.Vars[k])
 		}
 		fmt.Println("\t\t},")
+		fmt.Println("\t\tBodies: map[string]string{")
+		bp := bodyPrints(p)
+		for _, k := range sortedStrKeys(bp) {
+			fmt.Printf("\t\t\t%q: %q,\n", k, bp[k])
+		}
+		fmt.Println("\t\t},")
 		fmt.Println("\t},")
 	}
 	fmt.Println("}")
@@ -198,19 +207,23 @@ func minInt(a, b int) int {
 	return b
 }
 
-// matchNames pairs gone names with new names: compatible(gone, new) says whether the declarations agree; among
-// compatible candidates the smallest edit distance wins, and only if it is the unique best for both sides.
-func matchNames(gone, fresh []string, compatible func(g, n string) bool) map[string]string {
+// matchNames pairs gone names with new names. compatible(gone, new) says whether the declarations agree (same type /
+// signature, same owner); dissim(gone, new) ∈ [0,1] is how different they look otherwise (names, and for functions
+// their bodies). Pairing is greedy on the smallest dissimilarity, takes a pair only when it is the strict best for
+// both of its members among what is still open, and is repeated until nothing changes — so that two leftovers that
+// are each other's only candidate are paired whatever they look like, while a new helper that merely shares a dead
+// function's signature (choice, no resemblance) is not taken for its successor.
+func matchNames(gone, fresh []string, compatible func(g, n string) bool, dissim func(g, n string) float64) map[string]string {
 	out := map[string]string{} // new → old
 	type cand struct {
 		g, n string
-		d    int
+		d    float64
 	}
 	var cs []cand
 	for _, g := range gone {
 		for _, n := range fresh {
 			if compatible(g, n) {
-				cs = append(cs, cand{g, n, editDistance(strings.ToLower(g), strings.ToLower(n))})
+				cs = append(cs, cand{g, n, dissim(g, n)})
 			}
 		}
 	}
@@ -224,26 +237,133 @@ func matchNames(gone, fresh []string, compatible func(g, n string) bool) map[str
 		return cs[i].n < cs[j].n
 	})
 	usedG, usedN := map[string]bool{}, map[string]bool{}
-	for i, x := range cs {
-		if usedG[x.g] || usedN[x.n] {
-			continue
+	for changed := true; changed; {
+		changed = false
+		openG, openN := map[string]int{}, map[string]int{}
+		for _, x := range cs {
+			if !usedG[x.g] && !usedN[x.n] {
+				openG[x.g]++
+				openN[x.n]++
+			}
 		}
-		// unique best: no other open candidate for the same g or n at the same distance
-		tie := false
-		for j, y := range cs {
-			if i == j || usedG[y.g] || usedN[y.n] || y.d != x.d {
+		for i, x := range cs {
+			if usedG[x.g] || usedN[x.n] {
 				continue
 			}
-			if y.g == x.g || y.n == x.n {
-				tie = true
+			only := openG[x.g] == 1 && openN[x.n] == 1
+			if !only {
+				if x.d > 0.6 {
+					continue // a choice, and no resemblance
+				}
+				tie := false
+				for j, y := range cs {
+					if i == j || usedG[y.g] || usedN[y.n] || (y.g != x.g && y.n != x.n) {
+						continue
+					}
+					if y.d-x.d < 0.05 {
+						tie = true
+					}
+				}
+				if tie {
+					continue
+				}
 			}
+			usedG[x.g], usedN[x.n] = true, true
+			out[x.n] = x.g
+			changed = true
+			break
 		}
-		if tie {
-			usedG[x.g], usedN[x.n] = true, true // ambiguous: leave both alone
-			continue
+	}
+	return out
+}
+
+// nameDissim: edit distance of the lower-cased names relative to the longer one.
+func nameDissim(g, n string) float64 {
+	longer := len(g)
+	if len(n) > longer {
+		longer = len(n)
+	}
+	if longer == 0 {
+		return 0
+	}
+	return float64(editDistance(strings.ToLower(g), strings.ToLower(n))) / float64(longer)
+}
+
+// jaccardDissim of two space-separated token sets.
+func jaccardDissim(a, b string) float64 {
+	sa, sb := map[string]bool{}, map[string]bool{}
+	for _, t := range strings.Fields(a) {
+		sa[t] = true
+	}
+	for _, t := range strings.Fields(b) {
+		sb[t] = true
+	}
+	if len(sa) == 0 && len(sb) == 0 {
+		return 0
+	}
+	inter := 0
+	for t := range sa {
+		if sb[t] {
+			inter++
 		}
-		usedG[x.g], usedN[x.n] = true, true
-		out[x.n] = x.g
+	}
+	union := len(sa) + len(sb) - inter
+	return 1 - float64(inter)/float64(union)
+}
+
+// bodyPrints: for every function / method with a body, the set of things its body mentions that are not its own
+// locals — fields, functions, types, package-level names, imported names — and the beginnings of its string
+// literals. Two functions of one signature are told apart by it (`SetNT` writes IsNonTerminator and CanTerminate,
+// `SetEpsilon` writes IsEpsilonClosure).
+func bodyPrints(p *packages.Package) map[string]string {
+	out := map[string]string{}
+	info := p.TypesInfo
+	for _, f := range p.Syntax {
+		for _, d := range f.Decls {
+			fd, ok := d.(*ast.FuncDecl)
+			if !ok || fd.Body == nil {
+				continue
+			}
+			key := fd.Name.Name
+			if rn, _ := recvTypeName(fd); rn != "" {
+				key = rn + "." + key
+			}
+			set := map[string]bool{}
+			ast.Inspect(fd.Body, func(n ast.Node) bool {
+				switch x := n.(type) {
+				case *ast.Ident:
+					o := info.Uses[x]
+					if o == nil {
+						return true
+					}
+					if v, isV := o.(*types.Var); isV && !v.IsField() && (v.Pkg() == nil || v.Parent() != v.Pkg().Scope()) {
+						return true // a local
+					}
+					if o.Pkg() == nil {
+						return true // universe
+					}
+					set[x.Name] = true
+				case *ast.BasicLit:
+					if x.Kind == token.STRING {
+						v := strings.Join(strings.Fields(x.Value), "_")
+						if len(v) > 24 {
+							v = v[:24]
+						}
+						set["lit:"+v] = true
+					}
+				}
+				return true
+			})
+			var toks []string
+			for t := range set {
+				toks = append(toks, t)
+			}
+			sort.Strings(toks)
+			if len(toks) > 60 {
+				toks = toks[:60]
+			}
+			out[key] = strings.Join(toks, " ")
+		}
 	}
 	return out
 }
@@ -260,7 +380,7 @@ func normaliseRenames(c *Ctx) {
 	}
 	log := &renameLog{}
 	c.renames = log
-	for pass := 1; pass <= 2; pass++ {
+	for pass := 1; pass <= 3; pass++ {
 		ren := map[types.Object]string{}
 		tmplFields := map[string]string{} // Builder field renames, new → old (for the template text)
 		for _, p := range c.All {
@@ -270,10 +390,13 @@ func normaliseRenames(c *Ctx) {
 				continue
 			}
 			cur := symsOf(p.Types)
-			if pass == 1 {
+			switch pass {
+			case 1:
 				detectTypeRenames(p, dir, base, cur, ren, log)
-			} else {
-				detectMemberRenames(p, dir, base, cur, ren, tmplFields, log)
+			case 2:
+				detectMemberRenames(p, dir, base, cur, ren, tmplFields, log, false)
+			case 3:
+				detectMemberRenames(p, dir, base, cur, ren, tmplFields, log, true)
 			}
 		}
 		if len(ren) == 0 {
@@ -360,7 +483,7 @@ func detectTypeRenames(p *packages.Package, dir string, base, cur *pkgSyms, ren 
 	}
 	m := matchNames(gone, fresh, func(g, n string) bool {
 		return shapeModulo(base.Types[g], unsettled, false) == shapeModulo(cur.Types[n], unsettled, false)
-	})
+	}, nameDissim)
 	for n, g := range m {
 		if o := p.Types.Scope().Lookup(n); o != nil {
 			ren[o] = g
@@ -369,10 +492,13 @@ func detectTypeRenames(p *packages.Package, dir string, base, cur *pkgSyms, ren 
 	}
 }
 
-func detectMemberRenames(p *packages.Package, dir string, base, cur *pkgSyms, ren map[types.Object]string, tmplFields map[string]string, log *renameLog) {
+func detectMemberRenames(p *packages.Package, dir string, base, cur *pkgSyms, ren map[types.Object]string, tmplFields map[string]string, log *renameLog, funcsPass bool) {
 	scope := p.Types.Scope()
 	// struct fields, per type present in both tables
 	for tn, bf := range base.Types {
+		if funcsPass {
+			break // fields, variables and constants were settled in the pass before
+		}
 		cf, ok := cur.Types[tn]
 		if !ok || len(bf) == 0 || strings.HasPrefix(bf[0], "=") || (len(cf) > 0 && strings.HasPrefix(cf[0], "=")) {
 			continue
@@ -403,7 +529,7 @@ func detectMemberRenames(p *packages.Package, dir string, base, cur *pkgSyms, re
 		}
 		sort.Strings(gone)
 		sort.Strings(fresh)
-		m := matchNames(gone, fresh, func(g, n string) bool { return bType[g] == cType[n] })
+		m := matchNames(gone, fresh, func(g, n string) bool { return bType[g] == cType[n] }, nameDissim)
 		tobj, _ := scope.Lookup(tn).(*types.TypeName)
 		if tobj == nil {
 			continue
@@ -432,20 +558,35 @@ func detectMemberRenames(p *packages.Package, dir string, base, cur *pkgSyms, re
 		return ""
 	}
 	var gone, fresh []string
-	for n := range base.Funcs {
-		if _, ok := cur.Funcs[n]; !ok {
-			gone = append(gone, n)
+	if funcsPass {
+		for n := range base.Funcs {
+			if _, ok := cur.Funcs[n]; !ok {
+				gone = append(gone, n)
+			}
 		}
-	}
-	for n := range cur.Funcs {
-		if _, ok := base.Funcs[n]; !ok {
-			fresh = append(fresh, n)
+		for n := range cur.Funcs {
+			if _, ok := base.Funcs[n]; !ok {
+				fresh = append(fresh, n)
+			}
 		}
 	}
 	sort.Strings(gone)
 	sort.Strings(fresh)
+	curBodies := map[string]string{}
+	if len(gone) > 0 && len(fresh) > 0 {
+		curBodies = bodyPrints(p)
+	}
 	m := matchNames(gone, fresh, func(g, n string) bool {
 		return owner(g) == owner(n) && base.Funcs[g] == cur.Funcs[n]
+	}, func(g, n string) float64 {
+		// what the bodies mention (read under the already restored names of types, fields and variables) counts
+		// twice as much as the resemblance of the names
+		bg, okG := base.Bodies[g]
+		bn, okN := curBodies[n]
+		if !okG || !okN {
+			return nameDissim(g, n)
+		}
+		return (2*jaccardDissim(bg, bn) + nameDissim(g, n)) / 3
 	})
 	for n, g := range m {
 		var o types.Object
@@ -479,19 +620,21 @@ func detectMemberRenames(p *packages.Package, dir string, base, cur *pkgSyms, re
 	}
 	// package-level variables and constants
 	gone, fresh = nil, nil
-	for n := range base.Vars {
-		if _, ok := cur.Vars[n]; !ok {
-			gone = append(gone, n)
+	if !funcsPass {
+		for n := range base.Vars {
+			if _, ok := cur.Vars[n]; !ok {
+				gone = append(gone, n)
+			}
 		}
-	}
-	for n := range cur.Vars {
-		if _, ok := base.Vars[n]; !ok {
-			fresh = append(fresh, n)
+		for n := range cur.Vars {
+			if _, ok := base.Vars[n]; !ok {
+				fresh = append(fresh, n)
+			}
 		}
 	}
 	sort.Strings(gone)
 	sort.Strings(fresh)
-	mv := matchNames(gone, fresh, func(g, n string) bool { return base.Vars[g] == cur.Vars[n] })
+	mv := matchNames(gone, fresh, func(g, n string) bool { return base.Vars[g] == cur.Vars[n] }, nameDissim)
 	for n, g := range mv {
 		if o := scope.Lookup(n); o != nil {
 			ren[o] = g
@@ -509,7 +652,20 @@ type savedNames struct {
 func applyRenames(c *Ctx, ren map[types.Object]string, tmplFields map[string]string) *savedNames {
 	saved := &savedNames{idents: map[*ast.Ident]string{}, lits: map[*ast.BasicLit]string{}}
 	set := func(id *ast.Ident, o types.Object) {
-		if old, ok := ren[o]; ok && id.Name != old && id.Name != "_" {
+		old, ok := ren[o]
+		if !ok {
+			// an embedded field is named after its type: it follows the type's renaming (`T{Embedded: …}`, `x.Embedded`)
+			if v, isV := o.(*types.Var); isV && v.IsField() && v.Embedded() {
+				t := v.Type()
+				if p, isP := t.(*types.Pointer); isP {
+					t = p.Elem()
+				}
+				if n, isN := t.(*types.Named); isN {
+					old, ok = ren[n.Obj()]
+				}
+			}
+		}
+		if ok && id.Name != old && id.Name != "_" {
 			saved.idents[id] = id.Name
 			id.Name = old
 		}
@@ -628,4 +784,233 @@ func recheckAll(c *Ctx) error {
 		check(p)
 	}
 	return firstErr
+}
+
+// ---------------------------------------------------------------------------------------------
+// The same for the GENERATED parser. Its source lives in string constants of package Builder (the two templates and
+// the fragments the builders emit), so a renamed helper, table, struct field or local of the generated parser is
+// invisible to the pass above — and the skeleton rules name what they read (`PushStateSym`, `StackPackCheck`,
+// `Yystate`, `dollarDolar`). normaliseSkeletonNames renders the skeletons once, compares each variant's declarations
+// (and the locals of its functions) with baseline_skelsyms.go, and writes the baseline names back INTO THE STRING
+// LITERALS of package Builder (whole words only), then type-checks the module again and lets the staged program be
+// rebuilt from the edited literals: shapes, hole contexts and skeletons all see the names the rules know. Types are
+// settled first, then fields / variables / constants, then functions and locals (one rebuild each, only when
+// something was renamed). A skeleton that does not type-check is left alone — the rules report it.
+
+func skelSymsOf(sk *Skeleton) *pkgSyms {
+	s := symsOf(sk.Pkg)
+	tmp := &packages.Package{Types: sk.Pkg, TypesInfo: sk.Info, Syntax: []*ast.File{sk.File}}
+	s.Bodies = bodyPrints(tmp)
+	s.Locals = map[string][]string{}
+	q := qualifierFor(sk.Pkg)
+	for _, d := range sk.File.Decls {
+		fd, ok := d.(*ast.FuncDecl)
+		if !ok || fd.Body == nil {
+			continue
+		}
+		key := fd.Name.Name
+		if rn, _ := recvTypeName(fd); rn != "" {
+			key = rn + "." + key
+		}
+		seen := map[string]bool{}
+		var list []string
+		ast.Inspect(fd, func(n ast.Node) bool {
+			id, ok := n.(*ast.Ident)
+			if !ok || id.Name == "_" {
+				return true
+			}
+			if v, isV := sk.Info.Defs[id].(*types.Var); isV && !v.IsField() && !seen[id.Name] {
+				seen[id.Name] = true
+				list = append(list, id.Name+"\x00"+types.TypeString(v.Type(), q))
+			}
+			return true
+		})
+		s.Locals[key] = list
+	}
+	return s
+}
+
+func dumpSkelSyms(c *Ctx) {
+	st := c.GetStaged()
+	fmt.Println("package main")
+	fmt.Println()
+	fmt.Println("// Code generated by `YACCVERIF_NORENAME=1 yaccverif -dump skelsyms`; the declarations of the generated parser (per variant) on the tree the rules were confirmed on (rename.go).")
+	fmt.Println()
+	fmt.Println("var baselineSkelSyms = map[string]*pkgSyms{")
+	for _, sc := range st.Configs {
+		var sk *Skeleton
+		for _, k := range sc.Skels {
+			if k.K == 2 && k.ActSet == 0 {
+				sk = k
+			}
+		}
+		if sk == nil || sk.Pkg == nil || len(sk.TypeErs) > 0 {
+			continue
+		}
+		s := skelSymsOf(sk)
+		fmt.Printf("\t%q: {\n", sc.V.Name)
+		pm := func(name string, m map[string]string) {
+			fmt.Printf("\t\t%s: map[string]string{\n", name)
+			for _, k := range sortedStrKeys(m) {
+				fmt.Printf("\t\t\t%q: %q,\n", k, m[k])
+			}
+			fmt.Println("\t\t},")
+		}
+		pl := func(name string, m map[string][]string) {
+			fmt.Printf("\t\t%s: map[string][]string{\n", name)
+			var ks []string
+			for k := range m {
+				ks = append(ks, k)
+			}
+			sort.Strings(ks)
+			for _, k := range ks {
+				var qs []string
+				for _, f := range m[k] {
+					qs = append(qs, strconv.Quote(f))
+				}
+				fmt.Printf("\t\t\t%q: {%s},\n", k, strings.Join(qs, ", "))
+			}
+			fmt.Println("\t\t},")
+		}
+		pm("Funcs", s.Funcs)
+		pl("Types", s.Types)
+		pm("Vars", s.Vars)
+		pm("Bodies", s.Bodies)
+		pl("Locals", s.Locals)
+		fmt.Println("\t},")
+	}
+	fmt.Println("}")
+}
+
+// skeletonRenames: new → old for one phase (1 types, 2 fields / variables / constants, 3 functions and locals).
+func skeletonRenames(st *Staged, phase int, log *renameLog) map[string]string {
+	out := map[string]string{}
+	for _, sc := range st.Configs {
+		base := baselineSkelSyms[sc.V.Name]
+		var sk *Skeleton
+		for _, k := range sc.Skels {
+			if k.K == 2 && k.ActSet == 0 {
+				sk = k
+			}
+		}
+		if base == nil || sk == nil || sk.Pkg == nil || sk.File == nil || len(sk.TypeErs) > 0 {
+			continue
+		}
+		cur := skelSymsOf(sk)
+		tmp := &packages.Package{Types: sk.Pkg, TypesInfo: sk.Info, Syntax: []*ast.File{sk.File}}
+		ren := map[types.Object]string{}
+		sub := &renameLog{}
+		switch phase {
+		case 1:
+			detectTypeRenames(tmp, "generated parser", base, cur, ren, sub)
+		case 2:
+			detectMemberRenames(tmp, "generated parser", base, cur, ren, map[string]string{}, sub, false)
+		case 3:
+			detectMemberRenames(tmp, "generated parser", base, cur, ren, map[string]string{}, sub, true)
+		}
+		for o, old := range ren {
+			if o.Name() != old {
+				out[o.Name()] = old
+			}
+		}
+		if phase == 3 {
+			// locals of the functions both trees have
+			for fn, bl := range base.Locals {
+				cl, ok := cur.Locals[fn]
+				if !ok {
+					continue
+				}
+				bT, cT := map[string]string{}, map[string]string{}
+				for _, f := range bl {
+					k := strings.IndexByte(f, 0)
+					bT[f[:k]] = f[k+1:]
+				}
+				for _, f := range cl {
+					k := strings.IndexByte(f, 0)
+					cT[f[:k]] = f[k+1:]
+				}
+				var gone, fresh []string
+				for n := range bT {
+					if _, ok := cT[n]; !ok {
+						gone = append(gone, n)
+					}
+				}
+				for n := range cT {
+					if _, ok := bT[n]; !ok {
+						fresh = append(fresh, n)
+					}
+				}
+				sort.Strings(gone)
+				sort.Strings(fresh)
+				for n, g := range matchNames(gone, fresh, func(g, n string) bool { return bT[g] == cT[n] }, nameDissim) {
+					out[n] = g
+				}
+			}
+		}
+	}
+	var pairs []string
+	for n, g := range out {
+		pairs = append(pairs, "generated parser "+n+"→"+g)
+	}
+	sort.Strings(pairs)
+	log.pairs = append(log.pairs, pairs...)
+	return out
+}
+
+func normaliseSkeletonNames(c *Ctx) {
+	if os.Getenv("YACCVERIF_NORENAME") != "" || c.Pkg("Builder") == nil {
+		return
+	}
+	if c.renames == nil {
+		c.renames = &renameLog{}
+	}
+	defer func() {
+		c.stage = nil // the rules build the staged program themselves (after the inlining normaliser)
+		stdImporter = nil
+	}()
+	c.stage = nil
+	for phase := 1; phase <= 3; phase++ {
+		st := c.GetStaged() // rebuilt only after a phase that renamed something
+		ren := skeletonRenames(st, phase, c.renames)
+		if len(ren) == 0 {
+			continue
+		}
+		c.stage = nil
+		saved := map[*ast.BasicLit]string{}
+		for _, f := range c.Pkg("Builder").Syntax {
+			ast.Inspect(f, func(n ast.Node) bool {
+				lit, ok := n.(*ast.BasicLit)
+				if !ok || lit.Kind != token.STRING {
+					return true
+				}
+				// on the string's value, not on its source form (`"\tname"` would hide the word boundary)
+				raw := strings.HasPrefix(lit.Value, "`")
+				val, err := strconv.Unquote(lit.Value)
+				if err != nil {
+					return true
+				}
+				nv := val
+				for nw, old := range ren {
+					nv = regexp.MustCompile(`\b`+regexp.QuoteMeta(nw)+`\b`).ReplaceAllString(nv, old)
+				}
+				if nv != val {
+					saved[lit] = lit.Value
+					if raw && !strings.Contains(nv, "`") {
+						lit.Value = "`" + nv + "`"
+					} else {
+						lit.Value = strconv.Quote(nv)
+					}
+				}
+				return true
+			})
+		}
+		if err := recheckAll(c); err != nil {
+			for lit, v := range saved {
+				lit.Value = v
+			}
+			c.renames.err = "generated parser: " + err.Error()
+			_ = recheckAll(c)
+			return
+		}
+	}
 }
